@@ -987,7 +987,7 @@ class RemoterTls(Remoter):
 
         if data:  # connection open
             if self.wl:  # log over the wire rx
-                self.wl.writeRx(data, who=self.cs.getpeername())
+                self.wl.writeRx(data, who=self.ca)
 
             if self.refreshable:
                 self.refresh()
@@ -1029,7 +1029,7 @@ class RemoterTls(Remoter):
 
         if result:
             if self.wl:
-                self.wl.writeTx(data[:result], who=self.cs.getpeername())
+                self.wl.writeTx(data[:result], who=self.ca)
 
             if self.refreshable:
                 self.refresh()
